@@ -270,12 +270,25 @@ impl SrtlaConnection {
 QUALITY_STUB = ''
 
 ENH_STUBS = r'''
-// float code decided by Kani on the real functions (kx: in_flight_cap_*, soft_cap_range)
-pub uninterp spec fn spec_soft_cap(c: &SrtlaConnection) -> f64;
-#[verifier::external_body]
-pub fn cc_soft_cap_multiplier(conn: &SrtlaConnection) -> (r: f64)
-    ensures r == spec_soft_cap(conn), cap_ok(r),
-{ unimplemented!() }
+// the soft-cap factor as the documented function of the CC target and the measured bitrate only (float operations uninterpreted; the
+// range [0.1, 1] is Kani's: kx soft_cap_range on the real function).  Opaque: selection proofs need only that it is a function of the link;
+// the definition buys (a) the real body checked against it, (b) lemma_soft_cap_ignores_stall_history.
+#[verifier::opaque]
+pub open spec fn spec_soft_cap(c: &SrtlaConnection) -> f64 {
+    if c.cc_target_bps == 0 { 1.0f64 }
+    else if fle(c.bitrate.current_bitrate_bps, 0.0f64) { 1.0f64 }
+    else {
+        let cap_f = u64_to_f64(c.cc_target_bps);
+        spec_f64_clamp(spec_f64_max(cap_f.sub_spec(c.bitrate.current_bitrate_bps), 0.0f64).div_spec(cap_f), 0.1f64, 1.0f64)
+    }
+}
+// ASSUMED here, proved by Kani on the real function (kx: soft_cap_range): the factor stays in [floor, 1]
+#[verifier::external_body] pub proof fn lemma_soft_cap_in_range(c: &SrtlaConnection) ensures cap_ok(spec_soft_cap(c)) {}
+// C12: the soft-cap factor reads no stall state -- two links with the same CC target and measured bitrate get the same factor
+pub proof fn lemma_soft_cap_ignores_stall_history(a: &SrtlaConnection, b: &SrtlaConnection)
+    requires a.cc_target_bps == b.cc_target_bps, a.bitrate == b.bitrate,
+    ensures spec_soft_cap(a) == spec_soft_cap(b),  // @ob C11+C12.select.soft_cap.depends_only_on_cc_target_and_measured_bitrate_never_on_stall_history
+{ reveal(spec_soft_cap); }
 '''
 
 # ------------------------------------------------------------------ stall latch / pull (C13, C12)
